@@ -60,6 +60,68 @@ theorem rom_accepts_signed_v21_built (h : Mbi.Hyp co env c cfg signer) (hf : c.f
     rw [hsigner]
     exact h.hlaws.verify_sign _ _ _ _
 
+/-- a block with an ISK certificate around a well-formed (non-CA) root key record is well formed -/
+theorem wf_iskBlock (pointOk : Mbi.Bytes → Bool) {used : Nat} {cv : Curve} {r : RootKeyRecord} (wr : WFrkr co false used cv r)
+    (i : IskCert) (wi : WFisk pointOk r.rootPublicKey.length i)
+    (hsize : headerSizeV21 + (rkrBytes r).length + (iskBytes i).length < 2 ^ 32) :
+    WFv21 co pointOk false used cv ⟨2, 1, r, some i⟩ where
+  major := by show 2 < 65536; decide
+  minor := by show 1 < 65536; decide
+  rkr := wr
+  isk_none := fun h => by cases h
+  isk_some := fun _ => ⟨i, rfl, wi⟩
+  size := hsize
+
+/-- END TO END, ECC signed WITH an ISK certificate - the chain  root[used] → ISK → image,  the signing root index a parameter:
+    the block SPSDK builds from the root keys `ks` (documented domain), signing root `used`, and a well-formed ISK certificate `i`.
+    The ROM fused with `Spec.rotkh … cert_block_21 ks` accepts the exported image; the root key record names index `used` and carries
+    THAT root's public key; exactly two obligations are left - the ISK certificate under the carried root key and the image under the
+    ISK key - and both hold when the certificate was signed with root `used`'s private key and the image with the ISK's private key. -/
+theorem rom_accepts_signed_v21_built_isk (h : Mbi.Hyp co env c cfg signer) (hf : c.family = some .signedV21) (ht : signedTypeOk c = true)
+    (uk : Option Mbi.Bytes) (ks : List Key) (hk : KeysOK .certBlock21 ks) (used : Nat) (hu : used < ks.length)
+    (r : RootKeyRecord) (hr : rkrCalculate co false ks used = .ok r)
+    (pointOk : Mbi.Bytes → Bool) (i : IskCert) (wi : WFisk pointOk r.rootPublicKey.length i)
+    (hsize : headerSizeV21 + (rkrBytes r).length + (iskBytes i).length < 2 ^ 32)
+    (hcert : cfg.cert = bytesV21 ⟨2, 1, r, some i⟩) (hsl : cfg.sigLen = i.pubKey.length)
+    (rootSk iskSk : PrivKey) (rnd rnd' : Rand) (alg : SigAlg)
+    (hroot : ∀ ku, ks[used]? = some ku → ku.material = co.pubOf rootSk)
+    (hisksig : ∀ cv : Curve, (∀ k ∈ ks, k.curve? = some cv) →
+        i.signature = co.sign (.ecdsa cv.hashAlg) rootSk (rkrBytes r ++ iskSignedPart i) rnd')
+    (hiskpub : i.pubKey = co.pubOf iskSk) (hsigner : signer = fun m => co.sign alg iskSk m rnd) :
+    ∃ (e pre : Mbi.Bytes) (a : Spec.MbiRom.Accepted) (cv : Curve) (ku : Key), exportImage co c cfg signer = .ok e
+      ∧ Spec.MbiRom.romCheck co (romEnvOf c (Spec.rotkh co .certBlock21 ks) uk) e = .ok a
+      ∧ ks[used]? = some ku ∧ r.rootPublicKey = ku.material ∧ rkrUsed r.flags = used ∧ rkrCa r.flags = false
+      ∧ a.obligations = [.ecdsa (co.pubOf rootSk) (rkrBytes r ++ iskSignedPart i) i.signature,
+                         .ecdsa (co.pubOf iskSk) pre (signer pre)]
+      ∧ co.verify (.ecdsa cv.hashAlg) (co.pubOf rootSk) (rkrBytes r ++ iskSignedPart i) i.signature = true
+      ∧ co.verify alg (co.pubOf iskSk) pre (signer pre) = true := by
+  obtain ⟨h1, h4, _, _⟩ := keysOK_cb21 hk
+  obtain ⟨cv, ku, hcv, hku, hkc, hall, hcalc⟩ := rkrCalculate_ok co h.hlaws ks hk used hu false
+  have hre : r = { flags := rkrFlags false used ks.length cv, rkh := ks.map (keyHash co), rootPublicKey := ku.material } := by
+    rw [hr] at hcalc; exact Except.ok.inj hcalc
+  have wr := wf_calculated co h.hlaws ks cv ku used false hcv h1 h4 hu hku hkc hall
+  rw [← hre] at wr
+  have wf := wf_iskBlock (co := co) pointOk wr i wi hsize
+  have rw_ : RomWF co used cv ⟨2, 1, r, some i⟩ := by
+    rw [hre]; exact romWF_calculated co ks cv ku used (rkrFlags false used ks.length cv) (some i) hku hu hall
+  have hrot : rotkhOfRecord co cv r = Spec.rotkh co .certBlock21 ks := by
+    rw [hre]; exact rotkhOfRecord_calculated co ks cv ku used (rkrFlags false used ks.length cv) h1 hku hu hall
+  have hrom := mbi_romCertV21_ok wf rw_ (romEnvOf c (Spec.rotkh co .certBlock21 ks) uk) (by rw [← hrot]; rfl)
+  have hs1 : (signerOf cv (⟨2, 1, r, some i⟩ : CertBlockV21)).1 = i.pubKey := rfl
+  rw [hs1, ← hcert, ← hsl] at hrom
+  obtain ⟨e, pre, a, he, _, hacc, hob⟩ := Mbi.rom_accepts_signedV21 h hf ht _ uk _ _ hrom
+  have hpk := hroot ku hku
+  have hrp : r.rootPublicKey = ku.material := by rw [hre]
+  have hfl := rkr_fields false used ks.length cv (by omega) (by omega) hcv
+  refine ⟨e, pre, a, cv, ku, he, hacc, hku, hrp, ?_, ?_, ?_, ?_, ?_⟩
+  · rw [hre]; exact hfl.2.1
+  · rw [hre]; exact hfl.1
+  · rw [hob]
+    show obsOf (⟨2, 1, r, some i⟩ : CertBlockV21) ++ _ = _
+    simp only [obsOf, hrp, hpk, hiskpub, List.cons_append, List.nil_append]
+  · rw [hisksig cv hall]; exact h.hlaws.verify_sign _ _ _ _
+  · rw [hsigner]; exact h.hlaws.verify_sign _ _ _ _
+
 /-- END TO END, RSA signed (plain signed, with HMAC / key store, or encrypted - same statement through the respective
     acceptance theorem): with a certificate block exported by the C03 model whose RKH table is the one
     `CertBlockV1.set_root_key_hash` computes from the root keys `ks`, the ROM fused with `Spec.rotkh … cert_block_1 ks`
